@@ -24,4 +24,19 @@ CHECKS = {
              "unmodified application, and TLC validates the per-transaction verdicts and the full projected relayer state (plus a "
              "digest of the bridge store for 'changes no state at all') against the specification.",
         note=TRUSTED + "; BLS soundness assumed."),
+    "C02": dict(
+        level="model_checking",
+        technique="TLA+ spec (Relayer.tla) + TLC exhaustive bounded model with an adversary re-submitting every issued vote + TLC trace validation of random real-app histories",
+        text="MC_Relayer explores every interleaving (within bounds) of genuine, withheld and re-submitted votes with elections and "
+             "membership changes and checks that no vote id is accepted twice, the sequence steps by exactly one per acceptance and "
+             "rejected steps change nothing; random histories of the real application (with immediate and late re-submission under same "
+             "and foreign contexts) are validated event by event against the same actions.",
+        note=TRUSTED + "; BLS soundness assumed."),
+    "C16": dict(
+        level="model_checking",
+        technique="TLA+ spec (Relayer.tla) + TLC exhaustive bounded model of boarding/elections + TLC trace validation of random real-app histories under three parameter settings",
+        text="MC_Relayer checks group/queue well-formedness, never-halting EndBlocker, join-only-by-proof and election timeliness as "
+             "invariants and action properties over all interleavings within bounds; real histories with real ECDSA/BLS proofs (valid, "
+             "forged, replayed), execution-layer add/remove lists and block times around both deadlines are validated step by step.",
+        note=TRUSTED + "; proof-of-possession soundness assumed."),
 }
